@@ -169,6 +169,9 @@ def run_update(ck_ob, mod, label):
         hdr_ = l["header"]
         ptrs_ = [f.insts[i] for i in f.blocks[hdr_].insts if f.insts[i].op == "phi" and (f.insts[i].get("ty") or "").endswith("*")]
         ints_ = [f.insts[i] for i in f.blocks[hdr_].insts if f.insts[i].op == "phi" and not (f.insts[i].get("ty") or "").endswith("*")]
+        ended = any(p_.end[0] in ("loop-entry", "backedge") and p_.end[1] == hdr_ for p_ in paths)
+        if not ended:
+            continue        # a helper loop with a decided trip count (followed by the executor), e.g. inside an inlined compression function
         if len(ptrs_) != 1 or len(ints_) != 1:
             raise Broken("tinyjambu_hash_update: expected one cursor and one remaining-length phi at the head of each block loop")
         tops[hdr_] = (ptrs_, ints_)
@@ -377,6 +380,8 @@ def run_init(ck_ob, mod, label):
         if [e[2] for e in ev] == ["tinyjambu_hash_init", "tinyjambu_hash_update", "tinyjambu_hash_finalize", "tinyjambu_hash_free"]:
             stp = ev[0][3][0]
             okseq = ev[1][3] == (stp, repr(Lf.s(("arg", 1))), repr(Lf.s(("n", 2)))) and ev[2][3] == (stp, repr(Lf.s(("arg", 0)))) and ev[3][3] == (stp,) and stp.startswith("alloca")
+    if not okseq and (len(ps) != 1 or [e[2] for e in ev] != ["tinyjambu_hash_init", "tinyjambu_hash_update", "tinyjambu_hash_finalize", "tinyjambu_hash_free"]):
+        raise Broken("tinyjambu_hash (one-shot) is not written as init; update; finalize; free on a local state (calls %s): this shape is not analysed" % (desc,))
     ck_ob(okseq, "ONESHOT", h.name, "one-shot[%s]" % label, "hash(out,in,inlen) = init; update(in,inlen); finalize(out); free on one local state",
           "one-shot hash is not init; update(in,inlen); finalize(out); free: %s" % (desc,), relpath("%s:%d" % (h.file, h.line)))
     return 5
